@@ -245,6 +245,7 @@ class Recorder:
         self.name = name
         self.events = []  # (kind, payload)
         self.app_msgs = []  # FIXMessage delivered to on_message
+        self.raise_next = 0  # number of coming on_message calls that raise after recording
         self.auto_logon = True
         self.replay_filter = None  # callable(msg)->bool
         self.hook_gate = None  # async callable(name, *args) for the gate scheduler
@@ -263,6 +264,10 @@ class Recorder:
         self._ev("msg", msg)
         self.app_msgs.append(msg)
         await self._gate("on_message", msg)
+        if self.raise_next > 0:
+            # an application handler that fails AFTER it took the message
+            self.raise_next -= 1
+            raise RuntimeError("application handler failed after taking the message")
 
     async def on_connect(self):
         self._ev("connect")
